@@ -17,6 +17,12 @@ def regenerate_all():
     import gen_snapshots
     import gen_kernels
     import gen_hcalls
+    import gen_sfista
+    import gen_ownership
+    import gen_unscale
+    import gen_trsclip
+    import gen_json
+    import gen_diag
     steps = [("tables", lambda: gen.regenerate(None)), ("callsites", lambda: gen_callsites.regenerate(None)),
              ("radius", lambda: gen_radius.regenerate(None)), ("booksites", lambda: gen_booksites.regenerate(None)),
              ("bookcalls", lambda: gen_bookcalls.regenerate(None)), ("exitsites", lambda: gen_exitsites.regenerate(None)),
@@ -24,7 +30,10 @@ def regenerate_all():
              ("kernels", lambda: gen_kernels.regenerate(None)), ("model-decisions", lambda: gen_kernels.regenerate_model(None)),
              ("clip", lambda: gen_kernels.regenerate_clip(None)), ("dykstra", lambda: gen_kernels.regenerate_dykstra(None)),
              ("loops", lambda: gen_kernels.regenerate_loops(None)), ("guards", lambda: gen_kernels.regenerate_guards(None)),
-             ("trproj", lambda: gen_kernels.regenerate_trproj(None)), ("hcalls", lambda: gen_hcalls.regenerate(None))]
+             ("trproj", lambda: gen_kernels.regenerate_trproj(None)), ("hcalls", lambda: gen_hcalls.regenerate(None)),
+             ("sfista", lambda: gen_sfista.regenerate(None)), ("ownership", lambda: gen_ownership.regenerate(None)),
+             ("unscale", lambda: gen_unscale.regenerate(None)), ("trsclip", lambda: gen_trsclip.regenerate(None)),
+             ("json", lambda: gen_json.regenerate(None)), ("diag", lambda: gen_diag.regenerate(None))]
     for name, fn in steps:
         try:
             fn()
